@@ -81,6 +81,14 @@ impl<'a, P: ?Sized + PathImpl> PathMutImpl<'a, P> {
 		// - `segment` looks like a scheme and path is a the start.
 		// - `segment` is empty, path is absolute and following an authority.
 		// - `segment` is empty, path is relative.
+		if self.follows_authority && self.start > 0 && self.start == self.end {
+			// VALIDITY: When an authority is present, the path must be
+			//           absolute.
+			allocate_range(self.buffer, self.start..self.start, 1);
+			self.buffer[self.start] = b'/';
+			self.end += 1;
+		}
+
 		let disambiguate = self.is_empty()
 			&& ((self.start == 0 && segment.looks_like_scheme()) || segment.is_empty());
 
